@@ -418,6 +418,9 @@ void UtilContext::print16(const char *token)
 
     printf(" %04x", num);
 
+    // The end of the 32 bit address space.
+    if (start + 2 < start) { break; }
+
     start = start + 2;
   }
 
@@ -481,6 +484,9 @@ void UtilContext::print32(const char *token)
     }
 
     printf(" %08x", num);
+
+    // The end of the 32 bit address space.
+    if (start + 4 < start) { break; }
 
     start = start + 4;
   }
